@@ -46,7 +46,7 @@ def run(ctx):
     C17.r_fresh_buffers(prog, rep)
     C03.r_sql_columns(prog, rep)
     from sa.report import run_subset
-    run_subset(C03, ctx, {"R-DEPBLOB-BITS", "R-DB-LOOKUP-ON-ADD"})
+    run_subset(C03, ctx, {"R-DEPBLOB-BITS", "R-DB-LOOKUP-ON-ADD", "R-SQL-LENGTHS", "R-SQL-AFFINITY", "R-DB-VERSION"})
 
     r = rep.rule("R-NINJA-ORDERONLY", "explicit and implicit inputs are requested as value dependencies, order-only inputs are only followed; each loop runs "
                                       "over its own iterator range", floor=3)
